@@ -21,6 +21,7 @@
 //   direct a           directed_advertising_address( a )       a = 48 address bits * 2 + random flag
 //   local a            local_address( a )
 //   filter b | wladd a | wlremove a    connection_request_filter / add_to / remove_from white list
+//   scanfilter b | scanreq hex   scan_request_filter; is_scan_request_in_filter( ScanA, TxAdd ) -> `f=<in filter>`
 //   recv hex           handle_adv_receive on an exactly sized heap copy of the PDU (header + body)
 //   recvfull hex       same, PDU copied into the 36 byte advertising_receive_buffer (as the nRF radio does)
 // output: `ok` or `- | s <channel> <delay us>` for scheduling ops, prefixed by `acc <remote> ` / `rej `
@@ -118,6 +119,9 @@ struct adv_if
     virtual void dirty() = 0;
     virtual void local( const device_address& ) = 0;
     virtual void filter( bool ) = 0;
+    virtual void scanfilter( bool ) = 0;
+    virtual bool scan_in_filter( const device_address& ) = 0;
+    virtual device_address local() = 0;
     virtual bool wladd( const device_address& ) = 0;
     virtual bool wlremove( const device_address& ) = 0;
     virtual bool recv( std::uint8_t*, std::size_t, device_address& ) = 0;
@@ -135,6 +139,9 @@ struct common : adv_if
     void dirty() override { ll.dirty_ = true; }
     void local( const device_address& a ) override { ll.address_ = a; }
     void filter( bool b ) override { ll.connection_request_filter( b ); }
+    void scanfilter( bool b ) override { ll.scan_request_filter( b ); }
+    bool scan_in_filter( const device_address& a ) override { return ll.is_scan_request_in_filter( a ); }
+    device_address local() override { return ll.address_; }
     bool wladd( const device_address& a ) override { return ll.add_to_white_list( a ); }
     bool wlremove( const device_address& a ) override { return ll.remove_from_white_list( a ); }
     bool recv( std::uint8_t* p, std::size_t n, device_address& remote ) override { return ll.handle_adv_receive( read_buffer{ p, n }, remote ); }
@@ -233,6 +240,23 @@ int main()
         if ( op == "filter" && has_arg && v < 2 ) { a->filter( v ); return "ok"; }
         if ( op == "wladd" && has_arg ) return a->wladd( make_addr( v ) ) ? "1" : "0";
         if ( op == "wlremove" && has_arg ) return a->wlremove( make_addr( v ) ) ? "1" : "0";
+        if ( op == "scanfilter" && has_arg && v < 2 ) { a->scanfilter( v ); return "ok"; }
+        if ( op == "scanreq" && w.size() == 2 )
+        {
+            // the scan filter of white_list.hpp applied to ScanA / TxAdd.  (The generic predicate
+            // advertising_type_base::is_valid_scan_request< Layout > of advertising.hpp cannot be called:
+            // it is never instantiated by the library and does not compile when instantiated —
+            // `body.begin` on a std::pair.)
+            std::vector< std::uint8_t > pdu;
+            if ( !verif::parse_hex( w[ 1 ], pdu ) || pdu.size() < 2 ) return "bad-op";
+            std::unique_ptr< std::uint8_t[] > heap( new std::uint8_t[ pdu.size() ] );
+            std::copy( pdu.begin(), pdu.end(), heap.get() );
+            std::uint8_t scanner[ 6 ] = { 0 };
+            for ( std::size_t i = 0; i != 6 && i + 2 < pdu.size(); ++i )
+                scanner[ i ] = pdu[ i + 2 ];
+            const bool in_filter = a->scan_in_filter( device_address( scanner, ( pdu[ 0 ] & 0x40 ) != 0 ) );
+            return std::string( "f=" ) + ( in_filter ? "1" : "0" );
+        }
         if ( ( op == "recv" || op == "recvfull" ) && w.size() == 2 )
         {
             std::vector< std::uint8_t > pdu;
